@@ -1210,11 +1210,55 @@ func (k *c10k) invariants() []*c10Invariant {
 							continue
 						}
 						n++
-						mk, ok := mu.Value.(*ssa.MakeSlice)
-						if !ok {
-							return false, "the vector stored at " + k.c.P.Pos(mu.Pos()) + " is not made with the index dimension"
+						// make(.., idx.Dimension) here, or in a reading helper handed the
+						// dimension (the field, or the one constant it is set to)
+						dimOK := func(v ssa.Value) bool {
+							if o, f, _, ok := fieldLoad(v); ok && o == eidx && f == "Dimension" {
+								return true
+							}
+							if cv, isC := ssau.ConstInt(v); isC {
+								for _, st := range k.fieldStores[eidx+".Dimension"] {
+									if sv, ok := ssau.ConstInt(st.Val); ok && sv == cv {
+										return true
+									}
+								}
+							}
+							return false
 						}
-						if o, f, _, ok := fieldLoad(mk.Len); !ok || o != eidx || f != "Dimension" {
+						good := false
+						val := mu.Value
+						if ex, isEx := val.(*ssa.Extract); isEx && ex.Index == 0 {
+							val = ex.Tuple
+						}
+						switch x := val.(type) {
+						case *ssa.MakeSlice:
+							good = dimOK(x.Len)
+						case *ssa.Call:
+							if g := x.Common().StaticCallee(); g != nil && g.Blocks != nil && k.c.P.IsRepoFunc(g) {
+								good = true
+								n := 0
+								for _, ret := range ssau.ReturnsOf(g) {
+									if ssau.IsNilConst(ret.Results[0]) {
+										continue
+									}
+									n++
+									mk, isMk := ret.Results[0].(*ssa.MakeSlice)
+									pi := -1
+									if isMk {
+										for i, p := range g.Params {
+											if mk.Len == ssa.Value(p) {
+												pi = i
+											}
+										}
+									}
+									if !isMk || pi < 0 || pi >= len(x.Common().Args) || !dimOK(x.Common().Args[pi]) {
+										good = false
+									}
+								}
+								good = good && n > 0
+							}
+						}
+						if !good {
 							return false, "the vector stored at " + k.c.P.Pos(mu.Pos()) + " is not made with the index dimension"
 						}
 					}
